@@ -105,6 +105,10 @@ func WithSub(v int) (string, string) {
 `, v)
 }
 
+// writer configurations an application sets up once
+var SharedXMLOptions = nodeutil.XMLWtr{EnumAsIds: true}
+var SharedJSONOptions = nodeutil.JSONWtr{EnumAsIds: true, Pretty: true}
+
 type Task struct {
 	Name string
 	Run  func() string
@@ -361,6 +365,12 @@ func Use(m *meta.Module, fcYang *meta.Module, w int) string {
 	say("export", js, err)
 	xs, err := nodeutil.WriteXML(firstSel(b.Root().Find("sys")))
 	say("xml", xs, err)
+	// writer options kept in one value for the whole process and used by every task: the convenience methods work
+	// on a copy of it
+	xs, err = SharedXMLOptions.XML(firstSel(b.Root().Find("sys")))
+	say("xml-options", xs, err)
+	js, err = SharedJSONOptions.JSON(firstSel(b.Root().Find("sys")))
+	say("json-options", js, err)
 	queries := []string{
 		"sys?depth=1", "sys?depth=2&content=config", "sys?content=nonconfig", "sys?fields=name;d1/d2/host", "sys?fc.xfields=blob;d1",
 		"sys?with-defaults=trim", "sys?with-defaults=report-all", "item?where=" + fmt.Sprintf("w>%d", w%50), "item=1", "item=1/sub=s0",
